@@ -4,6 +4,6 @@ CONSTANTS
   Blobs = {2, 4}
   Deviations = {}
   FullConfig = FALSE
-INVARIANTS QuorumAtAck ErrOnlyBelowQuorum Decided ReadsSurvive ReadsSurviveLoss ExactlyOnce NoResurrection AckedReadable
+INVARIANTS QuorumAtAck ErrOnlyBelowQuorum Decided ReadsSurvive ReadsSurviveLoss ListsSurviveLoss ExactlyOnce NoResurrection AckedReadable
 VIEW View
 CHECK_DEADLOCK FALSE
